@@ -106,7 +106,46 @@ def dataclass_fields_contract(repo: Repo) -> List[Tuple[bool, str, str]]:
                         "serialization options, which then outrank the subclass's Annotated alias, Config.aliases and plain name"))
     if seen < 3:
         out.append((None, f"only {seen} outcomes of dataclass_fields analysed", ""))
+    out += _ancestor_order(repo)
     return out
+
+
+def _ancestor_order(repo: Repo):
+    """a field declared by two ancestors and not by the class itself: the nearest ancestor's Field wins"""
+    import re as _re
+
+    fi = repo.func(M_BUILDER, "CodeBuilder.dataclass_fields")
+    ev = make_eval(repo, inline_depth=3, allow_inline={"dataclass_fields"}, assume=[(_re.compile(r"is_dataclass\("), True)])
+    p = Path()
+    B = ev.builder_obj(p)
+    from .values import Tup
+
+    mro = Tup([Sym("LEAF"), Sym("MID"), Sym("BASE"), Sym("object")])
+    p.heap[B.oid]["cls"] = ev.new_obj(p, "builtins::type", {"__mro__": mro}, oid="CLS")
+    fields = {"MID": ev.new_obj(p, "dataclasses::Field", {"name": Const("n")}, oid="FIELD_MID"),
+              "BASE": ev.new_obj(p, "dataclasses::Field", {"name": Const("n")}, oid="FIELD_BASE")}
+
+    def values(pe, recv, a, kw, q, e):
+        s = show(recv)
+        for k, f in fields.items():
+            if k in s:
+                return [(Lst([f]), q)]
+        if "object" in s or "LEAF" in s:
+            return [(Lst([]), q)]
+        return None
+
+    ev.models["method:values"] = values
+    ev.models["method:__get_field_types"] = lambda pe, recv, a, kw, q, e: [(Lst([]), q)]
+    dummy = ast.parse("f(x)").body[0].value
+    res = ev.call_func(Func(fi, self_v=B), [], {}, p, dummy, force=True)
+    got = sorted({show(v.entries["n"][1]) if isinstance(v, Dct) and "n" in v.entries else "<absent>" for v, q in res if q.ctl != "raise"})
+    why = ("the Field of an inherited name comes from the nearest ancestor that declares it (dataclasses' own rule): with the base-most one the leaf class sees a stale default, "
+           "init flag, alias and serialization options")
+    if got == ["FIELD_MID"]:
+        return [(True, "field declared by MID and BASE, inherited by LEAF(MID(BASE)): the nearest ancestor's Field wins", why)]
+    if got == ["FIELD_BASE"] or "FIELD_BASE" in got:
+        return [(False, f"field declared by MID and BASE, inherited by LEAF(MID(BASE)): dataclass_fields yields {got} (the farther ancestor's Field)", why)]
+    return [(None, f"ancestor order of dataclass_fields not decidable: {got}", why)]
 
 
 def report(repo: Repo, rep, rule: str, results, construct: str) -> None:
@@ -217,3 +256,68 @@ def type_name_identifier_contract(repo: Repo):
     why = "a type that cannot be referred to by its dotted name (local class) is bound by identity under its sanitised name; any other type is referred to by name"
     exp = [("clean_id(type_name(typ))", {"is_local_type_name(type_name(typ))": True}, ["ensure_object"]), ("type_name(typ)", {"is_local_type_name(type_name(typ))": False}, [])]
     return outcome_contract(repo, "CodeBuilder.get_type_name_identifier", exp, [Sym("typ")], why=why)
+
+
+def add_type_modules_contract(repo: Repo):
+    """add_type_modules(t): the module of t is registered whenever inspect finds one -- whatever module it is -- and the walk
+    descends into Literal values, type arguments, TypeVar constraints and bound.  No other condition may cut the walk."""
+    why = ("every module a rendered type expression mentions must be in the generated code's namespace: type references on the error paths "
+           "(MissingField('f', list[decimal.Decimal], cls)) are evaluated there and raise NameError otherwise")
+    fi = repo.func(M_BUILDER, "CodeBuilder.add_type_modules")
+    ev = make_eval(repo, inline_depth=3, allow_inline={"add_type_modules"})
+    key = f"{M_BUILDER}::CodeBuilder.add_type_modules"
+    ev.models.pop(key, None)
+
+    def rec(pe, fv, args, kwargs, p, e):
+        if sum(1 for f in pe.call_stack if f.key == key) >= 1:
+            p.events.append(("recurse", tuple(show(a) for a in args)))
+            return [(Const(None), p)]
+        return None
+
+    ev.models[key] = rec
+    p = Path()
+    B = ev.builder_obj(p)
+    dummy = ast.parse("f(x)").body[0].value
+    res = ev.call_func(Func(fi, self_v=B), [Sym("t")], {}, p, dummy, force=True)
+    known = ("inspect.getmodule(t)", "is_literal(t)", "get_args(t)", "'__constraints__'", "'__bound__'")
+    out = []
+    n = 0
+    for v, q in res:
+        if q.ctl == "raise":
+            out.append((False, "add_type_modules raises", why))
+            continue
+        for w in q.worlds():
+            at = dict(Path._view(w, "A|"))
+            n += 1
+            mods = [show(e[1]) for e in q.events if e and e[0] == "ensure_module"]
+            recs = [" ".join(e[1]) for e in q.events if e and e[0] == "recurse"]
+            recs += [" ".join(e[2]) for e in q.events if e and e[0] == "star_call" and e[1].endswith("add_type_modules")]
+            extra = [k for k in at if not any(s in k for s in known)]
+            has_mod = next((b for k, b in at.items() if "inspect.getmodule(t)" in k), None)
+            cond = ", ".join(f"{'' if b else 'not '}{k}" for k, b in sorted(at.items()))
+            if extra:
+                out.append((False, f"add_type_modules depends on `{extra[0]}` [{cond[:160]}]", why))
+                continue
+            if has_mod is False:
+                out.append((not mods and not recs, f"no module found -> nothing registered ({mods}, {recs})", why))
+                continue
+            want = []
+            lit = next((b for k, b in at.items() if "is_literal(t)" in k), None)
+            args_ = next((b for k, b in at.items() if "get_args(t)" in k), None)
+            if lit:
+                want.append("literal")
+            elif args_:
+                want.append("args")
+            if next((b for k, b in at.items() if "__constraints__" in k), False):
+                want.append("constraints")
+            if next((b for k, b in at.items() if "__bound__" in k), False):
+                want.append("bound")
+            got = []
+            for r in recs:
+                got.append("literal" if "get_literal_values" in r or "literal" in r else "constraints" if "__constraints__" in r or "constraints" in r
+                           else "bound" if "__bound__" in r or "bound" in r else "args" if "get_args" in r or "args" in r else f"?{r}")
+            ok = mods == ["inspect.getmodule(t)"] and sorted(got) == sorted(want)
+            out.append((ok, f"[{cond[:150]}] -> module registered {mods}, descends into {got} (expected {want})", why))
+    if n < 8:
+        out.append((None, f"only {n} paths of add_type_modules", why))
+    return out
